@@ -95,7 +95,7 @@ func (h *Handler) HandleMessage(msg stanza.Message, t xmlstream.TokenReadEncoder
 	if err != nil {
 		return err
 	}
-	return handlePayload(h, msg, p.Data, t)
+	return handlePayload(h, msg, msg.From, p.Data, t)
 }
 
 // HandleIQ implements mux.IQHandler.
@@ -118,7 +118,7 @@ func (h *Handler) HandleIQ(iq stanza.IQ, t xmlstream.TokenReadEncoder, start *xm
 		h.mu.Lock()
 		conn, ok := h.streams[sid]
 		h.mu.Unlock()
-		if !ok {
+		if !ok || !conn.fromPeer(iq.From) {
 			_, err := xmlstream.Copy(t, iq.Error(stanza.Error{
 				Type:      stanza.Cancel,
 				Condition: stanza.ItemNotFound,
@@ -144,7 +144,7 @@ func (h *Handler) HandleIQ(iq stanza.IQ, t xmlstream.TokenReadEncoder, start *xm
 		if err != nil {
 			return err
 		}
-		return handlePayload(h, iq, p, t)
+		return handlePayload(h, iq, iq.From, p, t)
 	}
 
 	// We understand that this is an IBB payload, but did not recognize the
@@ -195,11 +195,19 @@ type errorResponder interface {
 	Error(stanza.Error) xml.TokenReader
 }
 
-func handlePayload(h *Handler, errResp errorResponder, p dataPayload, e xmlstream.Encoder) error {
+// fromPeer reports whether a stanza sent by from belongs to the stream: a
+// session is identified by its two parties and the sid, not by the sid alone.
+// A stanza without a from attribute comes from the entity at the other end of
+// the XMPP session itself.
+func (c *Conn) fromPeer(from jid.JID) bool {
+	return from.Equal(jid.JID{}) || from.Equal(c.stanzaWriter.to)
+}
+
+func handlePayload(h *Handler, errResp errorResponder, from jid.JID, p dataPayload, e xmlstream.Encoder) error {
 	h.mu.Lock()
 	conn, ok := h.streams[p.SID]
 	h.mu.Unlock()
-	if !ok {
+	if !ok || !conn.fromPeer(from) {
 		_, err := xmlstream.Copy(e, errResp.Error(stanza.Error{
 			Type:      stanza.Cancel,
 			Condition: stanza.ItemNotFound,
